@@ -163,8 +163,21 @@ func runC18(c *eng.Ctx) {
 					if !isEq {
 						return false
 					}
+					isSettings := func(e ast.Expr) bool {
+						if eng.IsField(info, e, settings) {
+							return true
+						}
+						// the settings handed in as a parameter, or held in a local
+						if tv, has := info.Types[e]; has && typeNamed("pkg/hook/types", "Settings")(tv.Type) {
+							if _, isPtr := tv.Type.(*types.Pointer); isPtr {
+								_, isId := ast.Unparen(e).(*ast.Ident)
+								return isId
+							}
+						}
+						return false
+					}
 					for i := 0; i < 2; i++ {
-						if eng.IsField(info, x, settings) && eng.IsNil(info, y) {
+						if isSettings(x) && eng.IsNil(info, y) {
 							return eq == !hasSettings
 						}
 						if hasSettings && eng.IsField(info, x, fld) {
